@@ -422,6 +422,47 @@ def run_real(ctx):
                                            "_why": "recipient %d (%s) of %s" % (j, w, [x[0] for x in added])}) for j, (w, k) in enumerate(added) if j < len(ents)], C04.p_dec)
     ctx.count("real:direct-first-sequences", 2 * len(seqs))
 
+    # ---- the command-line tool adds signatures to a token it is handed in any spelling (JSON or compact; inline, file,
+    #      stdin - compact input from a file or stdin is streamed field by field): same form rules, step by step ----
+    from props import c18 as C18
+    pay = b"payload of a token signed again"
+    first = ctx.real([("jws.sig", {"jws": {"payload": G.b64u(pay)}, "sig": {"protected": {"alg": "HS256"}}, "jwk": pool["oct-32"]})])[0]
+    ncli = 0
+    if first.get("ok"):
+        for flabel, iargv, files, stdin in C18.input_forms(C18.js(first["jws"]), C18.compact_of(first["jws"]), rng):
+            cur, keys = first["jws"], ["oct-32"]
+            for k2, tmpl in (("EC-P256", None), ("oct-64", {"protected": {"alg": "HS512"}, "header": {"kid": "third"}})):
+                text = C18.js(cur)
+                if len(keys) == 1:
+                    ia, fs, sin = iargv, dict(files), stdin
+                else:       # a general-form token has no compact spelling: hand it over the same way (inline / file / stdin) as JSON
+                    ia, fs, sin = (["-i", text], {}, None) if flabel.startswith("inline") else (["-i", "tok.json"], {"tok.json": C18.hx(text)}, None) \
+                        if flabel.startswith("file") else (["-i", "-"], {}, C18.hx(text))
+                fs["k2.jwk"] = C18.hx(C18.js(pool[k2]))
+                x = {"argv": ["jws", "sig"] + ia + (["-s", C18.js(tmpl)] if tmpl else []) + ["-k", "k2.jwk"], "files": fs}
+                if sin is not None:
+                    x["stdin"] = sin
+                rr = ctx.real([("cli.run", x)])[0]
+                ctx.evaluations += 1
+                ncli += 1
+                out = C18.tok_of_text(C18.parse_out(rr, None) or "") if rr.get("status") == 0 else None
+                if not isinstance(out, dict):
+                    ctx.pfails.append(("real:cli-refused", "jose jws sig refused to add a signature to a token given as %s: status %s" % (flabel, rr.get("status")), "cli.run", x, rr))
+                    break
+                pf = check_step("jws", cur, out, tmpl, None)
+                if pf:
+                    ctx.pfails.append((pf[0], pf[1] + " (jose jws sig, token given as %s)" % flabel, "cli.run", x, rr))
+                    break
+                keys.append(k2)
+                ents = jws_entries(out)
+                vs = ctx.real([("jws.ver", {"jws": out, "sig": ents[j], "jwk": pool[kn], "all": False}) for j, kn in enumerate(keys)])
+                if not all(v.get("r") for v in vs):
+                    ctx.pfails.append(("real:entry-unusable", "after jose jws sig on a token given as %s the entries verify as %s under their keys: %s" % (
+                        flabel, [bool(v.get("r")) for v in vs], json.dumps(out)[:300]), "cli.run", x, rr))
+                    break
+                cur = out
+    ctx.count("real:cli-sig-steps", ncli)
+
 
 def run(ctx):
     ops = []
